@@ -23,7 +23,7 @@ from mc.registry import derived as DV
 PROPERTY = 'C08'
 BUDGET = {'quick': 900, 'thorough': 5400}
 INF = float('inf')
-QUICK_SPACES = ('rn2x2', 'pw_rn2_2_c', 'rn3', 'ud3', 'rn3w2', 'rn3wa', 'pw_rn2_2', 'pw_ud2_2', 'nest_rn1_2x2',
+QUICK_SPACES = ('rn2x2', 'pw_rn2_2_c', 'pw_rn2_1_c', 'rn3', 'ud3', 'rn3w2', 'rn3wa', 'pw_rn2_2', 'pw_ud2_2', 'nest_rn1_2x2',
                 'pr_rn2_rn2_w', 'rn2')
 DER_BASES = ['L1Norm', 'L2NormSquared', 'L2Norm', 'KullbackLeibler', 'IndicatorBox', 'Huber',
              'IndicatorLpUnitBall', 'KullbackLeiblerCrossEntropy', 'GroupL1Norm',
@@ -65,6 +65,10 @@ def configs(tier):
     pool = ['L1Norm', 'L2NormSquared', 'L2Norm', 'IndicatorBox', 'KullbackLeibler', 'Huber']
     for f1, f2 in itertools.product(pool, repeat=2):
         cfgs.append({'kind': 'sepsum', 'f1': f1, 'f2': f2})
+        if (f1, f2) in (('L1Norm', 'L2NormSquared'), ('IndicatorBox', 'L1Norm'), ('L2Norm', 'Huber')):
+            # a scaled separable sum: per-component steps pass through the scalar multiple
+            for sc in (2, 0.5):
+                cfgs.append({'kind': 'sepsum', 'f1': f1, 'f2': f2, 'scale': sc})
         for sp in (['rn2', 'rn2wa'] if not thorough else ['rn2', 'rn2wa', 'ud2']):
             cfgs.append({'kind': 'infconv', 'f1': f1, 'f2': f2, 'space': sp})
             cfgs.append({'kind': 'sum', 'f1': f1, 'f2': f2, 'space': sp})
@@ -150,7 +154,7 @@ def _sk(name):
           else 'nested' if name.startswith('nest_') else 'tensor')
     if name in ('rn3', 'rn2', 'rn1', 'rn4', 'pw_rn2_2', 'nest_rn1_2x2', 'nest_rn2_2x2', 'rn2x2'):
         return st + ',unweighted'
-    if name in ('rn3w2', 'rn2w2', 'pw_rn2w2_2', 'ud3', 'ud2', 'pw_ud2_2', 'pw_rn2_2_c'):
+    if name in ('rn3w2', 'rn2w2', 'pw_rn2w2_2', 'ud3', 'ud2', 'pw_ud2_2', 'pw_rn2_2_c', 'pw_rn2_1_c'):
         return st + ',const-weighted'
     return st + ',nonuniformly-weighted'
 
@@ -163,6 +167,9 @@ def _site(cfg):
     if k == 'derived':
         return '%s.%s[%s]' % (cfg['name'], '.'.join(cfg['der']), _sk(cfg['space']))
     if k in ('sepsum',):
+        if cfg.get('scale'):
+            return '(%s*SeparableSum(%s,%s))' % ('int' if isinstance(cfg['scale'], int) else 'float',
+                                                 cfg['f1'], cfg['f2'])
         return 'SeparableSum(%s,%s)' % (cfg['f1'], cfg['f2'])
     if k in ('infconv', 'sum'):
         return '%s(%s,%s)[%s]' % ('InfimalConvolution' if k == 'infconv' else 'FunctionalSum',
@@ -225,6 +232,13 @@ def _build(cfg):
         if d1 is not None and d2 is not None:
             dom = lambda z: d1(z[:2]) and d2(z[2:])
         V = [0.25, 0.5, 2.0] if (s1.posdom or s2.posdom) else [-2.0, 0.5, 3.0]
+        if cfg.get('scale'):
+            sc = cfg['scale']
+            return dict(f=sc * f, info=_PInfo(f.domain),
+                        ref=lambda z: float(sc) * (r1(z[:2]) + r2(z[2:])),
+                        cref=lambda y: float(sc) * (c1(np.asarray(y[:2]) / float(sc))
+                                                    + c2(np.asarray(y[2:]) / float(sc))),
+                        V=V, dom=dom, tol=1e-6, Vc=[-2.0, 0.5, 3.0])
         return dict(f=f, info=_PInfo(f.domain), ref=lambda z: r1(z[:2]) + r2(z[2:]),
                     cref=lambda y: c1(y[:2]) + c2(y[2:]), V=V, dom=dom, tol=1e-6,
                     Vc=[-2.0, 0.5, 3.0])
@@ -355,6 +369,11 @@ def run(cfg):
         alphc = [Vc[0], Vc[-1]]
     X = list(S.points(n, alph))
     Y = list(S.points(n, alphc))
+    # magnitude regime: a few points of tiny (non-zero) magnitude on both sides; an effective
+    # domain like {0} or a kink at 0 must not be widened by a tolerance inside the library
+    tiny = 2.0 ** -30
+    X = X + [tiny * np.asarray(x) for x in [x for x in X if np.any(x != 0)][:4]]
+    Y = Y + [tiny * np.asarray(y) for y in [y for y in Y if np.any(y != 0)][:4]]
     # library values
     fx, fcy = [], []
     conj_evaluable = True
@@ -490,11 +509,21 @@ def run(cfg):
         pairs.append(('[f*,f**]', fc, fc.convex_conj))
     except Exception:
         pass
+    steps = [0.5, 2.0]
+    if cfg['kind'] == 'sepsum':
+        # the documented per-component steps of separable sums, in every spelling of a sequence
+        steps += [[0.5, 2.0], (2.0, 0.25), np.array([0.5, 4.0])]
     for lvl, fa, fb in pairs:
-      for sg in (0.5, 2.0):
+      for sg0 in steps:
+        if np.isscalar(sg0):
+            sg, sgi = sg0, 1.0 / sg0
+        else:
+            sg = np.repeat(np.asarray(sg0, float), 2)          # per entry of the flat vector
+            sgi = type(sg0)(1.0 / np.asarray(sg0)) if not isinstance(sg0, np.ndarray) \
+                else 1.0 / sg0
         try:
-            p1 = fa.proximal(sg)
-            p2 = fb.proximal(1.0 / sg)
+            p1 = fa.proximal(sg0)
+            p2 = fb.proximal(sgi)
         except Exception:
             # 'whenever both proximals exist': a refused construction means it does not exist
             # (whether the refusal is legitimate is C07's business)
